@@ -404,6 +404,12 @@ let run_parse k flags hex lines =
      if g <> model then Printf.printf "DIFF %d model=[%s] impl=[%s]\n" k model g;
      if oracle "C02" then begin
        (match res with UB _ -> Printf.printf "FAIL %d model-ub the model of the parser reaches undefined behaviour on this input\n" k | _ -> ());
+       (* the implementation accepts a message whose names the model refuses (EBADNAME: a pointer that
+          does not go strictly backward, a reserved label type, a truncated name) *)
+       (match res with
+        | Err s when int_of_z s = 8 && starts_with "0 " g ->
+          Printf.printf "FAIL %d forward-pointer-accepted the parser accepts a message in which the model refuses a name (EBADNAME): impl=[%s]\n" k g
+        | _ -> ());
        (* error with a result / success without one is printed by the harness *)
        if not (starts_with "0 " g) && String.length g > 3 && contains "RESULT-ON-ERROR" g then
          Printf.printf "FAIL %d error-with-result %s\n" k g
@@ -442,6 +448,30 @@ let run_parse k flags hex lines =
   if oracle "C03" && flags = 0 then
     (match get "R " with [r] when starts_with "0 " r -> roundtrip_oracle k (after "0 " r) lines | _ -> ())
 
+(* follow the name at [start] the way any decoder must, with no rule about direction, and report the
+   first pointer that does not target strictly below every label / pointer octet read before it
+   (or a walk that does not end): what "compression pointers can never loop or run forward" forbids *)
+let pointer_discipline (bytes : int array) start =
+  let n = Array.length bytes in
+  let minpos = ref max_int in
+  let rec go pos steps =
+    if steps > 4 * n + 64 then Some "the walk does not terminate"
+    else if pos < 0 || pos >= n then None
+    else begin
+      let b = bytes.(pos) in
+      if pos < !minpos then minpos := pos;
+      if b land 0xC0 = 0xC0 then begin
+        if pos + 1 >= n then None else
+        let tgt = ((b land 0x3F) lsl 8) lor bytes.(pos + 1) in
+        if tgt >= !minpos then Some (Printf.sprintf "pointer at %d targets %d, not below the lowest offset read so far (%d)" pos tgt !minpos)
+        else go tgt (steps + 1)
+      end
+      else if b land 0xC0 <> 0 then None
+      else if b = 0 then None
+      else go (pos + 1 + b) (steps + 1)
+    end in
+  go start 0
+
 (* ---- legacy expand_name / expand_string ---- *)
 let run_expand k is_name enc alen want hex lines =
   let bs = bytes_of_hex hex in
@@ -463,8 +493,21 @@ let run_expand k is_name enc alen want hex lines =
    | [g] -> if g <> model then Printf.printf "DIFF %d model=[%s] impl=[%s]\n" k model g
    | _ -> if not (List.exists (fun l -> starts_with "MONITOR" l) lines) then
        Printf.printf "DIFF %d model=[%s] impl=<no result line>\n" k model);
-  if oracle "C02" then
-    match res with UB _ -> Printf.printf "FAIL %d model-ub the model reaches undefined behaviour on this input\n" k | _ -> ()
+  if oracle "C02" then begin
+    (match res with UB _ -> Printf.printf "FAIL %d model-ub the model reaches undefined behaviour on this input\n" k | _ -> ());
+    if is_name then
+      match List.filter_map (fun l -> if starts_with "R " l then Some (after "R " l) else None) lines with
+      | [g] when starts_with "0 " g ->
+        bump "names-accepted";
+        let arr = Array.of_list (List.map int_of_n blk) in
+        (match pointer_discipline arr enc with
+         | Some why -> Printf.printf "FAIL %d forward-pointer-accepted ares_expand_name returned success although %s: %s\n" k why g
+         | None -> ());
+        (match res with
+         | Err s -> Printf.printf "FAIL %d forward-pointer-accepted ares_expand_name returned success, the model refuses the name (status %s): %s\n" k (string_of_z s) g
+         | _ -> ())
+      | _ -> ()
+  end
 
 let () =
   let cases = read_lines Sys.argv.(1) in
